@@ -57,6 +57,16 @@ CHECKS = {
         'translate/pyexpr2coq.py (with its own numeric self-test); float evaluation of log10/10**x is not modelled (laws proved over R, observed to 1e-9 in binary64); '
         'scipy interp1d modelled as piecewise linear with NaN outside.',
    technique='Coq proof over R about translator-regenerated definitions + Q-model correspondence for interpolation'),
+ 'C15': dict(
+   text='General theorem (any number of threads, ALL interleavings, unbounded pre-emptions, re-entrant lock, exception edges): if every access to a '
+        'mutable shared field of every operation lies inside its outermost lock region (boolean well_locked over a method table), every complete '
+        'schedule yields the results and final store of the serial execution ordered by outermost acquisition. The method table of SignalBuffer '
+        '(statements, lock nesting, fields read/written, calls) is REGENERATED from buffer.py on every run by a fail-closed AST translator and '
+        'well_locked is re-evaluated by vm_compute; mutable fields are computed (assigned outside __init__). When it fails, a settrace-driven '
+        'deterministic scheduler searches the REAL class for a torn read.',
+   ref='DESIGN.md section 6 C15', note='Trusted: Coq kernel + vm_compute; translate/pylocks2coq.py (fail-closed; cross-checked per method against bytecode attribute names and runtime '
+        'observation); the theorem is about a source-line-granular interleaving semantics with the RLock as mutual exclusion: CPython bytecode-level switching and NumPy releasing the GIL are outside the model.',
+   technique='Coq proof (serializability by forward simulation) applied by vm_compute to a lock table regenerated from the source by a translator; schedule search on the real class when it fails'),
 }
 
 PENDING = 'not yet built in this round (framework is being extended property by property; see DESIGN.md section 8)'
